@@ -3,7 +3,7 @@
     C13: a run-time change of `keyboard_events`).
 
     What the code reads from outside is an input of the model: the configuration value (`Op.set`, which also signals
-    a change whatever the value), bytes arriving on stdin (`Op.data`), end of input on stdin (`Op.close`), and the
+    a change whatever the value), a change of any other configuration value (`Op.poke`), bytes arriving on stdin (`Op.data`), end of input on stdin (`Op.close`), and the
     scheduler letting the worker and the watcher run until nothing is left to do (`Op.settle`). Several `set`s
     without a `settle` in between are seen by the worker as ONE wake-up (`ConfigWatched`: a change counter). -/
 namespace Kb
@@ -18,7 +18,7 @@ structure St where
   spawned : Nat := 0          -- ghost: `watch_stdin` tasks spawned so far
   deriving DecidableEq, Repr
 
-inductive Op | set (b : Bool) | data | close | settle
+inductive Op | set (b : Bool) | poke | data | close | settle
   deriving DecidableEq, Repr
 
 /-- one iteration of `worker`'s loop body, if there is a change to see -/
@@ -38,6 +38,7 @@ def settle (s : St) : St := watcherRun (workerIter s)
 
 def step (s : St) : Op → St
   | .set b => { s with enabled := b, dirty := true }
+  | .poke => { s with dirty := true }      -- any OTHER configuration value changes: the worker is woken all the same
   | .data => s
   | .close => { s with eof := true }
   | .settle => settle s
